@@ -262,25 +262,29 @@ fn observe(l: &Locale, m: &Model, id_head: &str) -> Option<String> {
     let u = &l.extensions.unicode; let t = &l.extensions.transform; let x = &l.extensions.private;
     let attrs: Vec<String> = u.attributes().map(|s| s.to_string()).collect();
     if attrs != m.attrs.iter().cloned().collect::<Vec<_>>() { return Some(format!("attributes() = {:?}, model {:?}", attrs, m.attrs)); }
-    for a in ["foo", "bar", "aaa"] { if u.has_attribute(a).ok() != Some(m.attrs.contains(a)) { return Some(format!("has_attribute({}) disagrees with the model {:?}", a, m.attrs)); } }
+    for a in ["foo", "bar", "aaa", "FOO", "Bar"] { if u.has_attribute(a).ok() != Some(m.attrs.contains(&a.to_ascii_lowercase())) { return Some(format!("has_attribute({}) disagrees with the model {:?}", a, m.attrs)); } }
+    if u.has_attribute("fo").is_ok() || u.has_attribute("x!y").is_ok() { return Some("has_attribute accepts a malformed attribute".into()); }
     let keys: Vec<String> = u.keyword_keys().map(|s| s.to_string()).collect();
     if keys != m.kw.keys().cloned().collect::<Vec<_>>() { return Some(format!("keyword_keys() = {:?}, model {:?}", keys, m.kw)); }
-    for k in ["ca", "nu", "1a"] {
+    for k in ["ca", "nu", "1a", "CA", "Nu"] {
         let got: Vec<String> = u.keyword(k).unwrap().map(|s| s.to_string()).collect();
-        if got != m.kw.get(k).cloned().unwrap_or_default() { return Some(format!("keyword({}) = {:?}, model {:?}", k, got, m.kw.get(k))); }
+        if got != m.kw.get(&k.to_ascii_lowercase()).cloned().unwrap_or_default() { return Some(format!("keyword({}) = {:?}, model {:?}", k, got, m.kw.get(&k.to_ascii_lowercase()))); }
     }
+    if u.keyword("c").is_ok() || u.keyword("a1").is_ok() { return Some("keyword() accepts a malformed key".into()); }
     if u.is_empty() != (m.attrs.is_empty() && m.kw.is_empty()) { return Some("unicode.is_empty() disagrees with the model".into()); }
     let tk: Vec<String> = t.tfield_keys().map(|s| s.to_string()).collect();
     if tk != m.tf.keys().cloned().collect::<Vec<_>>() { return Some(format!("tfield_keys() = {:?}, model {:?}", tk, m.tf)); }
-    for k in ["h0", "k0", "m0"] {
+    for k in ["h0", "k0", "m0", "H0", "K0"] {
         let got: Vec<String> = t.tfield(k).unwrap().map(|s| s.to_string()).collect();
-        if got != m.tf.get(k).cloned().unwrap_or_default() { return Some(format!("tfield({}) = {:?}, model {:?}", k, got, m.tf.get(k))); }
+        if got != m.tf.get(&k.to_ascii_lowercase()).cloned().unwrap_or_default() { return Some(format!("tfield({}) = {:?}, model {:?}", k, got, m.tf.get(&k.to_ascii_lowercase()))); }
     }
+    if t.tfield("ca").is_ok() || t.tfield("h").is_ok() { return Some("tfield() accepts a malformed key".into()); }
     if t.tlang().map(|x| x.to_string()) != m.tlang { return Some(format!("tlang() = {:?}, model {:?}", t.tlang().map(|x| x.to_string()), m.tlang)); }
     if t.is_empty() != (m.tlang.is_none() && m.tf.is_empty()) { return Some("transform.is_empty() disagrees with the model".into()); }
     let tags: Vec<String> = x.tags().map(|s| s.to_string()).collect();
     if tags != m.tags { return Some(format!("tags() = {:?}, model {:?}", tags, m.tags)); }
-    for g in ["priv", "a1", "a"] { if x.has_tag(g).ok() != Some(m.tags.iter().any(|y| y == g)) { return Some(format!("has_tag({}) disagrees with the model {:?}", g, m.tags)); } }
+    for g in ["priv", "a1", "a", "PRIV", "A1"] { if x.has_tag(g).ok() != Some(m.tags.iter().any(|y| *y == g.to_ascii_lowercase())) { return Some(format!("has_tag({}) disagrees with the model {:?}", g, m.tags)); } }
+    if x.has_tag("toolongtag").is_ok() || x.has_tag("").is_ok() { return Some("has_tag accepts a malformed tag".into()); }
     if x.is_empty() != m.tags.is_empty() { return Some("private.is_empty() disagrees with the model".into()); }
     if l.extensions.is_empty() != (m.attrs.is_empty() && m.kw.is_empty() && m.tlang.is_none() && m.tf.is_empty() && m.tags.is_empty()) { return Some("extensions.is_empty() disagrees with the model".into()); }
     let vars: Vec<String> = l.id.variants().map(|v| v.as_str().to_string()).collect();
